@@ -15,7 +15,7 @@ type literalValidator struct {
 
 func newLiteralValidator(node schema.Node, parent validator) *literalValidator {
 	switch node.(type) {
-	case *schema.LiteralNode, *schema.MixedNode, *schema.MixedValueNode:
+	case *schema.LiteralNode, *schema.MixedNode, *schema.MixedValueNode, *schema.ObjectNode, *schema.ArrayNode:
 		v := literalValidator{
 			node_:   node,
 			parent_: parent,
